@@ -19,7 +19,7 @@ pub struct G {
 
 const FIELDS: &[&str] = &["f", "g", "h", "n", "m", "s.t", "s.u", "arr", "o", "arr[1]", "lst[0]"];
 const IDENTS: &[&str] = &["A", "B", "C", "D", "sel", "android", "order", "nothing", "allow", "offline", "notable", "orbit"];
-const ALPHA: &[char] = &['a', 'b', 'A', 'B', 'c', '1', ' ', '.', 'é', 'É', '😀', 'ß', '-'];
+const ALPHA: &[char] = &['a', 'b', 'A', 'B', 'c', '1', ' ', '.', 'é', 'É', '😀', 'ß', '-', '\u{a0}'];
 const ALPHA_SMALL: &[char] = &['a', 'b', 'A', 'B'];
 
 pub fn s_node(s: &str) -> J {
@@ -567,7 +567,7 @@ impl G {
     pub fn flag_mix_source(&mut self) -> J {
         let ent = |m: &str, f: &str, v: J| json!({"m":m,"c":0,"f":cps(f),"v":v});
         let pat = |k: &str, ic: bool, a: &str| json!({"t":"pat","k":k,"ic":ic,"a":cps(a)});
-        match self.r.below(7) {
+        match [0usize, 0, 1, 2, 3, 4, 5, 6, 0][self.r.below(9)] {
             // 6  `not (A and B)` / `not (B and A)` where A is one predicate and B a mapping with two or
             //    three keys (an and-group that the optimiser flattens into the outer one): documents
             //    leave A's field out and make a member of B false, and the other way round
@@ -670,10 +670,24 @@ impl G {
                     let m = if i == 0 || self.r.chance(1, 3) { "str" } else { "none" };
                     preds.push(json!({"t":"map","es":[ent(m, "code", pat(k, false, digit))]}));
                 }
+                // ... and a NUMBER predicate on the same field (its value is then read as a number by
+                // one entry and as text by another)
+                let mut numeric: Option<&str> = None;
+                if self.r.chance(1, 2) {
+                    let c = *self.r.pick(&["500", "4", "14"]);
+                    let m = if self.r.chance(1, 4) { "str" } else { "none" };
+                    preds.push(json!({"t":"map","es":[ent(m, "code", json!({"t":"num","n":int_node(c)}))]}));
+                    numeric = Some(c);
+                }
+                let n = preds.len();
                 if self.r.chance(1, 2) { preds.swap(0, n - 1); }
                 let vals = [i_node("400"), i_node("500"), i_node("4"), i_node("5"), s_node("4x"), s_node("5"), s_node("x5"),
                             json!({"t":"B","b":true}), f_node("45.5"), i_node("14"), s_node("q")];
-                self.own_docs = Some((0..6).map(|_| obj(vec![("code".into(), self.r.pick(&vals).clone())])).collect());
+                let mut docs: Vec<J> = (0..6).map(|_| obj(vec![("code".into(), self.r.pick(&vals).clone())])).collect();
+                if let Some(c) = numeric {
+                    docs[0] = obj(vec![("code".into(), i_node(c))]);     // the value the number predicate names
+                }
+                self.own_docs = Some(docs);
                 if self.r.chance(1, 2) {
                     json!({"cond":{"t":"id","n":cps("A")},"ids":[[cps("A"),{"t":"seq","ms":preds}]]})
                 } else {
@@ -717,6 +731,63 @@ impl G {
                 }
             }
         }
+    }
+
+    /// C12 shapes.  0: all(f)/of(f, n) over two or three string patterns while the field holds a number,
+    /// a boolean, null or an object (the "not searchable" path) or a text.  1: a sequence of 6-8
+    /// mappings, each one list of three patterns on its own field: after shake an or-group of several
+    /// batches of EQUAL size and case flag, whose printed order must not vary from call to call
+    pub fn pure_shape_source(&mut self) -> J {
+        let pat = |k: &str, a: &str| json!({"t":"pat","k":k,"ic":false,"a":cps(a)});
+        if self.r.chance(1, 2) {
+            let n = 2 + self.r.below(2);
+            let vs: Vec<J> = (0..n).map(|i| pat("contains", ["ab", "ba", "bb"][i])).collect();
+            let (m, c) = if self.r.chance(1, 2) { ("all", 0) } else { ("of", 1 + self.r.below(n) as u64) };
+            let cond = if self.r.chance(1, 3) { json!({"t":"not","e":{"t":"id","n":cps("A")}}) } else { json!({"t":"id","n":cps("A")}) };
+            let vals = [i_node("7"), json!({"t":"B","b":true}), json!({"t":"N"}), obj(vec![("x".into(), i_node("1"))]), s_node("abba"), s_node("q"), f_node("1.5")];
+            self.own_docs = Some((0..5).map(|_| obj(vec![("f".into(), self.r.pick(&vals).clone())])).collect());
+            json!({"cond":cond,"ids":[[cps("A"),{"t":"map","es":[{"m":m,"c":c,"f":cps("f"),"v":{"t":"list","vs":vs}}]}]]})
+        } else {
+            let nf = 6 + self.r.below(3);
+            let ms: Vec<J> = (0..nf).map(|i| {
+                let vs: Vec<J> = (0..3).map(|j| pat("contains", &format!("w{}{}", i, j))).collect();
+                json!({"t":"map","es":[{"m":"none","c":0,"f":cps(&format!("f{}", i)),"v":{"t":"list","vs":vs}}]})
+            }).collect();
+            self.own_docs = Some((0..3).map(|_| { let i = self.r.below(nf); obj(vec![(format!("f{}", i), s_node(&format!("xw{}1y", i)))]) }).collect());
+            json!({"cond":{"t":"id","n":cps("A")},"ids":[[cps("A"),{"t":"seq","ms":ms}]]})
+        }
+    }
+
+    /// C16 shapes: a sequence of mappings that the matrix optimisation turns into a table (field g
+    /// recurs) in which one cell is a NESTED block whose inner key has the name of the block's own key
+    /// (`user: {user: ..}`) - and documents in which a field under a text predicate holds an OBJECT
+    /// (with members such as `#text`, `value`, `0` that no predicate names)
+    pub fn nested_cell_source(&mut self) -> J {
+        let pat = |k: &str, a: &str| json!({"t":"pat","k":k,"ic":false,"a":cps(a)});
+        let ent = |f: &str, v: J| json!({"m":"none","c":0,"f":cps(f),"v":v});
+        let inner = if self.r.chance(1, 2) { "user" } else { "name" };
+        let rows = vec![
+            json!({"t":"map","es":[ent("user", json!({"t":"map","es":[ent(inner, pat("prefix", "adm"))]})), ent("g", pat("exact", "x"))]}),
+            json!({"t":"map","es":[ent("g", pat("exact", "y")), ent("h", pat("prefix", "z"))]}),
+            json!({"t":"map","es":[ent("data", pat("prefix", "pow")), ent("g", pat("exact", "w"))]}),
+        ];
+        let objtext = |t: &str| obj(vec![("#text".into(), s_node(t)), ("value".into(), s_node(t)), ("0".into(), s_node(t))]);
+        let docs: Vec<J> = (0..6).map(|_| {
+            let mut kv = vec![];
+            match self.r.below(4) {
+                0 => kv.push(("user".to_string(), obj(vec![(inner.to_string(), s_node("admin"))]))),
+                1 => kv.push(("user".to_string(), obj(vec![("other".to_string(), s_node("admin"))]))),
+                2 => kv.push(("user".to_string(), s_node("admin"))),
+                _ => {}
+            }
+            kv.push(("g".to_string(), s_node(*self.r.pick(&["x", "y", "w", "q"]))));
+            match self.r.below(3) { 0 => kv.push(("h".to_string(), s_node("zz"))), 1 => kv.push(("h".to_string(), objtext("zz"))), _ => {} }
+            match self.r.below(3) { 0 => kv.push(("data".to_string(), s_node("power"))), 1 => kv.push(("data".to_string(), objtext("power"))), _ => {} }
+            obj(kv)
+        }).collect();
+        self.own_docs = Some(docs);
+        let cond = if !self.positive && self.r.chance(1, 4) { json!({"t":"not","e":{"t":"id","n":cps("A")}}) } else { json!({"t":"id","n":cps("A")}) };
+        json!({"cond":cond,"ids":[[cps("A"),{"t":"seq","ms":rows}]]})
     }
 
     /// a list that holds the wildcard `*` among members of other kinds (numbers, booleans, a nested
@@ -1585,7 +1656,7 @@ fn fuzz_case(g: &mut G, rule_files: &[String]) -> J {
 /// never used as field names by the generators (they include the one-character keys that the
 /// matrix optimisation uses internally)
 fn perturb(g: &mut G, d: &J, depth: usize) -> J {
-    const EXTRA: &[&str] = &["zz", "\u{0}", "\u{1}", "\u{2}", "q9", "zz.f", "Zf"];
+    const EXTRA: &[&str] = &["zz", "\u{0}", "\u{1}", "\u{2}", "q9", "zz.f", "Zf", "#text", "value"];
     match d["t"].as_str().unwrap_or("") {
         "O" => {
             let mut kv: Vec<J> = vec![];
@@ -1874,6 +1945,29 @@ pub fn gen_cases(topic: &str, seed: u64, n: usize, path: &str) -> Result<(), Str
         w.flush().map_err(|e| e.to_string())?;
         return Ok(());
     }
+    if topic == "bigp" {
+        // C12: the printed optimised expression must not depend on HOW MUCH the process has optimised
+        // before: rules with six lists of 120 patterns (one automaton each after shake), optimised
+        // again and again in one process
+        let mut g = G::new(seed ^ 0xB19F);
+        let mut w = BufWriter::new(File::create(path).map_err(|e| e.to_string())?);
+        for c in 0..n {
+            let ids: Vec<J> = (0..6).map(|i| {
+                let vs: Vec<J> = (0..120).map(|j| json!({"t":"pat","k":(["contains", "prefix", "suffix"][j % 3]),"ic":false,
+                                                          "a":cps(&format!("{} is the number of this somewhat longer needle, case {} field {}", j, c, i))})).collect();
+                json!([cps(IDENTS[i]), {"t":"map","es":[{"m":"none","c":0,"f":cps(&format!("f{}", i)),"v":{"t":"list","vs":vs}}]}])
+            }).collect();
+            let cond = (0..6).map(|i| json!({"t":"id","n":cps(IDENTS[i])})).reduce(|l, r| json!({"t":"or","l":l,"r":r})).unwrap();
+            let src = json!({"cond":cond,"ids":ids});
+            let i = g.r.below(6);
+            let docs = vec![obj(vec![(format!("f{}", i), s_node(&format!("z6 is the number of this somewhat longer needle, case {} field {}z", c, i)))]), obj(vec![("f0".into(), s_node("nothing"))])];
+            let case = json!({"topic":"bigp","oracle":false,"wt":true,"src":src,"docs":docs,
+                              "plan":{"tri":false,"scope":"sw","sws":[[], [true,true,true,true], [false,true,false,false], [true,true,false,false]],"expr":true,"repeat":7}});
+            writeln!(w, "{}", case).map_err(|e| e.to_string())?;
+        }
+        w.flush().map_err(|e| e.to_string())?;
+        return Ok(());
+    }
     if topic == "bigq" {
         // C12: quantified lists of 65..200 needles (slow_aho: hit sets of 64 and more members), in
         // runs of cases whose sizes differ, each executed again later and from fresh threads - a
@@ -1910,7 +2004,7 @@ pub fn gen_cases(topic: &str, seed: u64, n: usize, path: &str) -> Result<(), Str
                 0 => json!({"t":"bool","b":g.r.chance(1, 2)}),
                 1 => json!({"t":"null"}),
                 2 => json!({"t":"num","n":int_node(&g.int_text())}),
-                3 => json!({"t":"num","n":flt_node(*g.r.pick(&["1.5", "0.25", "-2.5"]))}),
+                3 => json!({"t":"num","n":flt_node(*g.r.pick(&["1.5", "0.25", "-2.5", "nan", "inf", "-inf", "0.5"]))}),
                 4 => json!({"t":"num","n":int_node(*g.r.pick(&["9223372036854775808", "18446744073709551615"]))}),
                 5 => json!({"t":"cmp","op":*g.r.pick(&["eq", "gt", "ge", "lt", "le"]),"n":int_node(&format!("{}", g.r.below(5)))}),
                 6 => json!({"t":"cmp","op":*g.r.pick(&["gt", "le"]),"n":flt_node("1.5")}),
@@ -1933,6 +2027,11 @@ pub fn gen_cases(topic: &str, seed: u64, n: usize, path: &str) -> Result<(), Str
                             _ => if i == 0 { first.clone() } else { scalar(g) },
                         };
                         vs.push(x);
+                    }
+                    // float members: sometimes a NaN or an infinity among them (they cannot be ordered)
+                    if first["t"] == "num" && first["n"]["k"] == "f" && g.r.chance(1, 2) {
+                        let pos = g.r.below(vs.len() + 1);
+                        vs.insert(pos, json!({"t":"num","n":flt_node(*g.r.pick(&["nan", "inf", "-inf"]))}));
                     }
                     json!({"t":"list","vs":vs})
                 }
@@ -2038,7 +2137,11 @@ pub fn gen_cases(topic: &str, seed: u64, n: usize, path: &str) -> Result<(), Str
                                 3 if matches!(topic, "pure" | "opt" | "find") => g.deep_nested_source(),
                                 4 if matches!(topic, "find" | "opt" | "lang") => g.nested_multi_source(),
                                 4 | 5 if matches!(topic, "pure" | "perm") => g.repeat_needle_source(),
-                                6 if matches!(topic, "perm" | "lang" | "opt") => g.wild_list_source(), _ => g.source(3) };
+                                6 if matches!(topic, "perm" | "lang" | "opt") => g.wild_list_source(),
+                                7 if topic == "perm" => g.flag_mix_source(),
+                                5 if matches!(topic, "find") => g.nested_cell_source(),
+                                7 if matches!(topic, "opt") => g.nested_cell_source(),
+                                5 | 6 if topic == "pure" => g.pure_shape_source(), _ => g.source(3) };
         let nd = 3 + g.r.below(4);
         let complete = matches!(topic, "opt" | "perm") && mode >= 4 && mode < 9;
         let docs: Vec<J> = match g.own_docs.take() {
@@ -2594,14 +2697,44 @@ pub fn gen_cases(topic: &str, seed: u64, n: usize, path: &str) -> Result<(), Str
                        "plan":{"tri":false,"scope":"sw","sws":[[], [true,true,true,true]],"ser":true,"via_value":true}})
             }
             // C11: every representation of the same logical document
+            // a FLAT-TABLE document: rules whose keys are dotted paths to scalar leaves (no nested
+            // mappings, no indices), documents that are nested objects with scalar leaves - the flat
+            // table (every leaf under its full path) is one more representation of the same content
+            "repr" if mode == 3 || mode == 4 => {
+                let paths = ["p.q", "r", "s.t.u", "p.v"];
+                let n = 1 + g.r.below(3);
+                let mut es = vec![];
+                for i in 0..n {
+                    let v = if g.r.chance(1, 4) { json!({"t":"cmp","op":"ge","n":int_node("5")}) } else { g.pattern(false) };
+                    es.push(json!({"m":"none","c":0,"f":cps(paths[i]),"v":v}));
+                }
+                let cond = if g.r.chance(1, 3) { json!({"t":"not","e":{"t":"id","n":cps("A")}}) } else { json!({"t":"id","n":cps("A")}) };
+                let src = json!({"cond":cond,"ids":[[cps("A"),{"t":"map","es":es.clone()}]]});
+                let mut docs = vec![];
+                for _ in 0..6 {
+                    let mut root: Vec<(String, J)> = vec![];
+                    for e in &es {
+                        if g.r.chance(1, 4) { continue; }
+                        let path = str_of(&e["f"]).unwrap_or_default();
+                        let leaf = if e["v"]["t"] == "cmp" { i_node(*g.r.pick(&["4", "5", "7"])) }
+                                   else if g.r.chance(1, 5) { i_node("3") } else { s_node(&g.near(&e["v"])) };
+                        insert_path(&mut root, &path, leaf);
+                    }
+                    docs.push(obj_from(root));
+                }
+                json!({"topic":"repr","oracle":true,"wt":true,"src":src,"docs":docs,
+                       "plan":{"tri":false,"scope":"sw","sws":[[], [true,true,true,true]],
+                               "reprs":["json","hm","own","doc","ownfind","flatdoc"]}})
+            }
             "repr" if mode < 3 => {
                 // numeric predicates against 64-bit boundary values: representations differ most in
                 // how they carry integers (i64 / u64 / f64)
                 let ctext = match g.r.below(4) { 0 => "1".to_string(), 1 => "9223372036854775807".to_string(), 2 => "-1".to_string(), _ => g.int_text() };
                 let op = *g.r.pick(&["eq", "gt", "ge", "lt", "le"]);
-                let v = match g.r.below(3) {
+                let v = match g.r.below(4) {
                     0 => json!({"m":"none","c":0,"f":cps("f"),"v":{"t":"cmp","op":op,"n":int_node(&ctext)}}),
                     1 => json!({"m":"str","c":0,"f":cps("f"),"v":{"t":"pat","k":"contains","ic":false,"a":cps("0")}}),
+                    2 => json!({"m":"flt","c":0,"f":cps("f"),"v":{"t":"cmp","op":op,"n":flt_node("1.5")}}),
                     _ => json!({"m":"int","c":0,"f":cps("f"),"v":{"t":"cmp","op":op,"n":int_node(&ctext)}}),
                 };
                 let src = json!({"cond":{"t":"id","n":cps("A")},"ids":[[cps("A"),{"t":"map","es":[v]}]]});
@@ -2656,6 +2789,21 @@ pub fn gen_cases(topic: &str, seed: u64, n: usize, path: &str) -> Result<(), Str
             }
         }
         if force {
+            // field NAMES are case-sensitive in both builds: variants of some documents in which one
+            // top-level name has its case swapped (the field is then absent under its written name)
+            let extra: Vec<J> = c["docs"].as_array().map(|ds| ds.iter().take(2).filter_map(|d| {
+                let kv = d["kv"].as_array()?;
+                let i = (0..kv.len()).find(|i| str_of(&kv[*i][0]).map(|k| k.chars().any(|c| c.is_ascii_alphabetic())).unwrap_or(false))?;
+                let k = str_of(&kv[i][0]).ok()?;
+                let swapped: String = k.chars().map(|c| if c.is_ascii_lowercase() { c.to_ascii_uppercase() } else { c.to_ascii_lowercase() }).collect();
+                if kv.iter().any(|p| str_of(&p[0]).map(|x| x == swapped).unwrap_or(false)) { return None; }
+                let mut d2 = d.clone();
+                d2["kv"][i][0] = cps(&swapped);
+                Some(d2)
+            }).collect()).unwrap_or_default();
+            if c["topic"] != "repr" && c.get("dcls").is_none() {
+                if let Some(ds) = c["docs"].as_array_mut() { ds.extend(extra); }
+            }
             force_ic(&mut c["src"]);
             if let Some(a) = c.get_mut("alts") {
                 force_ic(a);
